@@ -157,6 +157,9 @@ type Case struct {
 	// WithTimeout(one hour) nested in a cancellable parent, the parent is cancelled; 'n'
 	// WithDeadline(near): the harness waits at the cancellation point until it has expired.
 	Ctx byte
+	// ErrKind: what kind of error value the injected failures (failing reads and writes, failing
+	// List / Parse / Negotiate callbacks) return, see ErrKinds; 0 = a plain errors.New value.
+	ErrKind byte
 	// Block: a read at the end of the script blocks until the connection's deadline passes
 	// (what a silent peer looks like on a transport with deadlines) instead of returning EOF.
 	Block bool
@@ -254,6 +257,9 @@ func (c Case) Line(r Result) string {
 	if c.Ctx != 0 && c.Ctx != 'c' {
 		flags += "k" + string(c.Ctx)
 	}
+	if c.ErrKind != 0 {
+		flags += "e" + string(c.ErrKind)
+	}
 	return fmt.Sprintf("run %d %s %s %s %s %s", c.St0, flags, EncCfg(c.Cfg), EncScript(r.Script), common.Join(r.Picks, ","), c.Fault)
 }
 
@@ -266,6 +272,65 @@ var (
 	errFault = errors.New("harness: injected connection fault")
 	errCB    = errors.New("harness: scripted callback error")
 )
+
+// ErrKinds are the kinds of error value an injected failure can return besides a plain
+// errors.New value. What the property demands does not depend on the kind ("an error reported by
+// any step is never swallowed"), so the model does not see it; the code under test may well
+// look at it (errors.As(net.Error), Timeout(), errors.Is(context.DeadlineExceeded), == io.EOF ...).
+//
+//	T  a net.Error with Timeout() and Temporary() true that wraps os.ErrDeadlineExceeded (what a
+//	   connection returns when a deadline set by the caller, or the transport itself, times out)
+//	X  a net.Error with Temporary() true only
+//	N  *net.OpError wrapping net.ErrClosed
+//	U  io.ErrUnexpectedEOF (wrapped)
+//	D  context.DeadlineExceeded itself - although the context of the call is alive
+//	C  context.Canceled itself - although the context of the call is alive
+//	E  io.EOF itself
+var ErrKinds = []byte{'T', 'X', 'N', 'U', 'D', 'C', 'E'}
+
+// kindErr wraps a base error and adds the methods / identities of its kind.
+type kindErr struct {
+	base error
+	kind byte
+}
+
+func (e kindErr) Error() string   { return e.base.Error() + " (kind " + string(e.kind) + ")" }
+func (e kindErr) Unwrap() error   { return e.base }
+func (e kindErr) Timeout() bool   { return e.kind == 'T' }
+func (e kindErr) Temporary() bool { return e.kind == 'T' || e.kind == 'X' }
+func (e kindErr) Is(target error) bool {
+	switch e.kind {
+	case 'T':
+		return target == os.ErrDeadlineExceeded
+	case 'U':
+		return target == io.ErrUnexpectedEOF
+	}
+	return false
+}
+
+// wrapBase lets errors.Is find the harness's base error below a *net.OpError.
+type wrapBase struct{ base, also error }
+
+func (w wrapBase) Error() string   { return w.also.Error() + ": " + w.base.Error() }
+func (w wrapBase) Unwrap() []error { return []error{w.base, w.also} }
+
+// InjErr is the error value an injected failure of the given kind returns. The kinds D, C, E
+// are the sentinel values themselves (code may compare with ==), the others wrap base.
+func InjErr(kind byte, base error) error {
+	switch kind {
+	case 0:
+		return base
+	case 'N':
+		return &net.OpError{Op: "read", Net: "mem", Err: wrapBase{base, net.ErrClosed}}
+	case 'D':
+		return context.DeadlineExceeded
+	case 'C':
+		return context.Canceled
+	case 'E':
+		return io.EOF
+	}
+	return kindErr{base, kind}
+}
 
 // faultSpec is the decoded `fault` field: `/`-separated parts `k` / `k+` (failing operations),
 // `Cn` (cancel after n events), `CB` (cancel as soon as an operation blocks), `Hk` (operation k
@@ -344,6 +409,8 @@ type runState struct {
 	pastR     chan struct{} // closed when a read deadline in the past has been set
 	pastW     chan struct{}
 	gaveUp    map[bool]bool
+
+	cbInjected bool // a callback returned its injected error
 }
 
 // add records an event (r.mu held) and cancels the context when the case asks for it.
@@ -459,7 +526,7 @@ func (c conn) Read(p []byte) (int, error) {
 	st := r.state()
 	if r.fault.at(idx) {
 		r.add(Event{Kind: "R", Res: "fault", St: st})
-		return 0, errFault
+		return 0, InjErr(r.cs.ErrKind, errFault)
 	}
 	if r.expired(false, 300*time.Millisecond) {
 		r.add(Event{Kind: "R", Res: "fault", St: st})
@@ -513,7 +580,7 @@ func (c conn) Write(p []byte) (int, error) {
 	if r.fault.at(idx) {
 		e.Res = "fault"
 		r.add(e)
-		return 0, errFault
+		return 0, InjErr(r.cs.ErrKind, errFault)
 	}
 	if r.expired(true, 300*time.Millisecond) {
 		e.Res = "fault"
@@ -674,11 +741,22 @@ func render(it Item, pos int, server, s2s, ws bool) []byte {
 	return []byte(`zz<y xmlns='urn:y'/>`)
 }
 
-func classifyErr(err error) string {
+// cbErr is the error a failing callback of this run returns (and notes that one was returned:
+// the sentinel kinds cannot carry the harness's marker).
+func (r *runState) cbErr() error {
+	r.mu.Lock()
+	r.cbInjected = true
+	r.mu.Unlock()
+	return InjErr(r.cs.ErrKind, errCB)
+}
+
+func classifyErr(err error, cbSentinel ...error) string {
 	switch {
 	case err == nil:
 		return "done"
 	case errors.Is(err, errCB):
+		return "fail:cb"
+	case len(cbSentinel) == 1 && cbSentinel[0] != nil && errors.Is(err, cbSentinel[0]):
 		return "fail:cb"
 	case errors.Is(err, errFault), errors.Is(err, io.EOF), errors.Is(err, io.ErrUnexpectedEOF),
 		errors.Is(err, context.Canceled), errors.Is(err, context.DeadlineExceeded), errors.Is(err, os.ErrDeadlineExceeded):
@@ -708,7 +786,7 @@ func (r *runState) features() []xmpp.StreamFeature {
 				r.add(Event{Kind: "L", F: i, St: r.state()})
 				r.mu.Unlock()
 				if b.ListErr {
-					return b.ListReq, errCB
+					return b.ListReq, r.cbErr()
 				}
 				if err := e.EncodeToken(start); err != nil {
 					return b.ListReq, err
@@ -729,7 +807,7 @@ func (r *runState) features() []xmpp.StreamFeature {
 					return req, nil, err
 				}
 				if b.ParseErr {
-					return req, nil, errCB
+					return req, nil, r.cbErr()
 				}
 				return req, i, nil
 			},
@@ -764,7 +842,7 @@ func (r *runState) features() []xmpp.StreamFeature {
 					}
 				}
 				if b.NegErr {
-					return xmpp.SessionState(b.Mask), rw, errCB
+					return xmpp.SessionState(b.Mask), rw, r.cbErr()
 				}
 				return xmpp.SessionState(b.Mask), rw, nil
 			}
@@ -845,7 +923,11 @@ func Exec(cs Case) Result {
 			res.Outcome, res.Err = "PANIC", out.panic
 			res.State = r.state()
 		default:
-			res.Outcome = classifyErr(out.err)
+			var sentinel error
+			if r.cbInjected && (cs.ErrKind == 'D' || cs.ErrKind == 'C' || cs.ErrKind == 'E') {
+				sentinel = InjErr(cs.ErrKind, nil)
+			}
+			res.Outcome = classifyErr(out.err, sentinel)
 			if out.err != nil {
 				res.Err = out.err.Error()
 			}
@@ -892,6 +974,9 @@ func ParseLine(line string) (Case, error) {
 	cs.Tee = strings.Contains(f[2], "t")
 	if i := strings.Index(f[2], "k"); i >= 0 && i+1 < len(f[2]) {
 		cs.Ctx = f[2][i+1]
+	}
+	if i := strings.Index(f[2], "e"); i >= 0 && i+1 < len(f[2]) {
+		cs.ErrKind = f[2][i+1]
 	}
 	if f[3] != "-" {
 		for _, s := range strings.Split(f[3], ";") {
